@@ -355,7 +355,8 @@ impl<'a> TypingContext<'a> {
             .map(|item| StructItemDefinitionSignature {
               name: item.name,
               type_: type_system::subst_type(&item.type_, &subst_map),
-              is_public: item.is_public || nominal_type.id.eq(&self.current_class),
+              is_public: item.is_public
+                || self.in_same_class(nominal_type.module_reference, nominal_type.id),
             })
             .collect(),
         );
